@@ -15,6 +15,11 @@ import r22_adjoint
 import r24_errdrop
 import r25_dupdef
 import r26_stale
+import r27_linear
+import r28_puregen
+import r29_energyscale
+import r30_record
+import r31_reject
 import r06_validate
 import r07_cache
 import r08_toporder
@@ -111,6 +116,45 @@ R26_SCOPES = {
     "C17": ("feos_dft::functional", "feos_dft::convolver", "::dft::", "FunctionalContribution"),
     "C18": ("feos_dft::solver", "feos_dft::profile", "feos_dft::interface", "feos_dft::adsorption", "feos_dft::pdgt"),
 }
+
+
+R28_SCOPES = {
+    "C01": ("feos_core::state", "feos::", "feos_core::equation_of_state"),
+    "C06": ("state::critical_point",),
+    "C14": ("feos_core::parameter", "parameter"),
+    "C17": ("feos_dft::", "::dft::", "FunctionalContribution"),
+}
+
+
+def r28(ctx, prop):
+    return r28_puregen.run(ctx.F(), R28_SCOPES[prop])
+
+
+def r29(ctx, prop):
+    return r29_energyscale.run(ctx.F(), ("ideal_gas_helmholtz_energy",) if prop == "C10" else None)
+
+
+R31_SCOPES = {
+    "C03": ("feos_core::state::State", "feos_core::density_iteration", "state::builder", "feos_core::state::validate", "feos_core::state::newton",
+            "Residual::validate_moles"),
+    "C04": ("phase_equilibria::vle_pure", "phase_equilibria::phase_diagram_pure", "PhaseEquilibrium::<E, 2>::check_trivial_solution"),
+    "C05": ("phase_equilibria::tp_flash", "phase_equilibria::bubble_dew", "phase_equilibria::phase_diagram_binary",
+            "phase_equilibria::phase_envelope", "phase_diagram_pure::PhaseDiagram<E, 2>>"),
+    "C06": ("state::critical_point",),
+    "C07": ("phase_equilibria::stability_analysis", "vle_init_stability"),
+}
+
+
+def r31(ctx, prop):
+    return r31_reject.run(ctx.F(), R31_SCOPES[prop])
+
+
+def r30(ctx, prop):
+    return r30_record.run(ctx.F())
+
+
+def r27(ctx, prop):
+    return r27_linear.run(ctx.F())
 
 
 def r26(ctx, prop):
@@ -275,22 +319,22 @@ def r12(ctx, prop):
 
 
 PROPERTY_RULES = {
-    "C08": [r10_wrapper, r11, r2, r20, r21, r25],
-    "C09": [r12, r18, r20, r10_wrapper],
+    "C08": [r10_wrapper, r11, r2, r20, r21, r25, r27],
+    "C09": [r12, r18, r20, r10_wrapper, r30],
     "C02": [r3, r7],
-    "C10": [r10_selector, r8, r1_idealgas, r3, r19, r25],
-    "C14": [r14, r13, r10_identifier, r21],
+    "C10": [r10_selector, r8, r1_idealgas, r3, r19, r25, r29],
+    "C14": [r14, r13, r10_identifier, r21, r27, r28],
     "C15": [r15],
     "C20": [r10_transport, r21, r25, r24],
-    "C01": [r1_all, r2, r7, r8, r4, r25, r24, r26],
+    "C01": [r1_all, r2, r7, r8, r4, r25, r24, r26, r28, r29],
     "C13": [r1_guard, r8, r21],
-    "C17": [r1_functional, r8, r22, r25, r21, r26],
+    "C17": [r1_functional, r8, r22, r25, r21, r26, r28],
     "C11": [r9, r7],
-    "C03": [r6, r17, r4, r5, r25, r24, r26],
-    "C04": [r4, r16, r25, r24, r26],
-    "C05": [r4, r5, r16, r25, r24, r26],
-    "C06": [r4, r1_all, r21, r25, r24, r26],
-    "C07": [r5, r4, r25, r24, r26],
+    "C03": [r6, r17, r4, r5, r25, r24, r26, r31],
+    "C04": [r4, r16, r25, r24, r26, r31],
+    "C05": [r4, r5, r16, r25, r24, r26, r31],
+    "C06": [r4, r1_all, r21, r25, r24, r26, r28, r31],
+    "C07": [r5, r4, r25, r24, r26, r31],
     "C18": [r4, r16, r25, r24, r26],
 }
 
